@@ -102,7 +102,7 @@ def doRet (r : RState) (t : Nat) (kind : OpKind) (result : List Nat) : Except St
   let s1 ← runToRet r.c r.l2 100000 r.s t
   let th := s1.th t
   if th.kind ≠ kind then throw s!"implementation returns from {reprStr kind}, model thread is inside {reprStr th.kind}"
-  if th.result r.c ≠ result then throw s!"implementation returned {result}, model says {th.result r.c}"
+  if th.result ≠ result then throw s!"implementation returned {result}, model says {th.result}"
   match retOp r.c s1 t with
   | some s2 => pure { r with s := s2 }
   | none => throw "model cannot return"
